@@ -99,6 +99,9 @@ type c17GateCloud struct {
 }
 
 func (g *c17GateCloud) DescribeVSwitchByID(ctx context.Context, id string) (*vpc.VSwitch, error) {
+	if id == "" { // no filter: the first vSwitch of the account, see c17Cloud.DescribeVSwitchByID
+		return &vpc.VSwitch{VSwitchId: c17Foreign, ZoneId: c17Zone(0), AvailableIpAddressCount: 4000, CidrBlock: "172.16.0.0/16"}, nil
+	}
 	i, ok := c17Idx(id)
 	g.mu.Lock()
 	if !ok || i < 0 || i >= len(g.vsw) {
